@@ -74,9 +74,19 @@ def generate(rng, tier):
     if want_repl:
         # roomy cell needed for the supercell clause: widths > 2 (D + 2 atol)
         spec = worlds.gen_find_world(rng, max_atoms=26, max_copies=3, min_copies=1, width_mult=2.1, no_tight=True)
+    elif rng.random() < 0.1:
+        # an exact world: pattern axis exactly along a coordinate axis, noise-free copies in exact quarter/half-turn poses, the
+        # pattern re-presented in exact quarter/half turns (vectors that are bitwise opposite or equal, cross products exactly 0)
+        spec = worlds.gen_find_world(rng, min_copies=2, max_atoms=30, noise=False, force_axis_exact=True, poses=["aligned"], decoys=rng.random() < 0.3)
+        spec["exact_world"] = True
     else:
         spec = worlds.gen_find_world(rng, min_copies=1)
     spec["reps"] = _gen_reps(rng, len(spec["elements"]), len(spec["pattern"]["elements"]), False)
+    if spec.get("exact_world"):
+        half = [[1, -1, -1], [-1, 1, -1], [-1, -1, 1]]
+        for i in range(3):
+            spec["reps"].append({"kind": "pattern_motion", "R": np.diag(np.array(half[i], float)).tolist() if rng.random() < 0.7 else geom.CUBE_ROTS[rng.randrange(24)].tolist(),
+                                 "t": [0.0, 0.0, 0.0] if rng.random() < 0.5 else [float(rng.randint(-3, 3)) for _ in range(3)]})
     if want_repl and not any(r["kind"] == "replicate" for r in spec["reps"]):
         spec["reps"].append({"kind": "replicate", "dims": rng.choice([[2, 1, 1], [1, 2, 3], [2, 2, 1], [1, 1, 2], [3, 1, 2]])})
     spec["scripts"] = spec["scripts"][:1]
